@@ -1,6 +1,6 @@
-CONSTANTS p = 13
- nq = 2
- qnr2 = 0
+CONSTANTS p = 19
+ nq = 1
+ qnr2 = 1
  big = TRUE
  phases = {"quad", "sextic", "dodecic"}
 SPECIFICATION Spec
